@@ -228,14 +228,6 @@ func c17PickChain(c *Ctx, n int) []uint64 {
 func c17PickN(c *Ctx) int { return []int{16, 32, 64}[c.rng.Intn(3)] }
 
 func genC17(c *Ctx) {
-	// NewSplitMix(seed) is affine in the seed with the generator's own increment, so consecutive
-	// seeds give the same stream shifted by one draw; scramble the seed first.
-	{
-		z := c.Seed + 0xD1B54A32D192ED03
-		z = (z ^ (z >> 30)) * 0xBF58476D1CE4E5B9
-		z = (z ^ (z >> 27)) * 0x94D049BB133111EB
-		c.rng = &SplitMix{s: z ^ (z >> 31)}
-	}
 	if err := c17LoadZig(); err != nil {
 		panic(err)
 	}
